@@ -120,6 +120,8 @@ RECIPES = {
               dict(cmd="run", gen="aim-span:16,aim-roll:8,aim-gc:8,big:4,gc-heavy:4", policy="always_flush",
                    opts={"crash": "process", "tears": "boundaries", "max-points": "300"},
                    opts_thorough={"crash": "process", "tears": "aimed", "depth2": True, "max-points": "3000"}, thorough_factor=6),
+              # a transient failure to create the next file (a foreign directory at its name, removed after the failing call)
+              dict(cmd="obstacle", opts={"cases": "24"}, opts_thorough={"cases": "200"}),
               dict(cmd="run", genreal="GEN_Wal.cfg", genreal_thorough="GEN_Wal_5.cfg")],
         rule="after every truncate / delete / open of crash-free scripts: real readdir is a contiguous run ending at "
              "the writer's file, nothing older than min(oldest attribution, file at call start), disk_used = files * "
